@@ -44,7 +44,40 @@ def register(reg):
     ]
     reg.add(Contract(
         "seq.basic_functions.Operation.cost", self_class="Operation", params=[("self", "obj")],
-        pure=True, returns="real", assumed=True, note=ASSUMED_NOTE, ensures=COST, frame=[], props=("C07",)))
+        pure=True, returns="real", assumed=True,
+        note="what callers see; the same clauses are proved on the body of Operation.cost in two typed views of "
+             "the parameter dictionary (#flat: scalar rd/wd, #levels: per-level vectors), see below",
+        ensures=COST, frame=[], props=("C07",)))
+    # the body of Operation.cost under contract: `params` is an untyped dictionary in the repository, so the
+    # body is verified once per shape the builders construct it with (revolve/disk_revolve/periodic_disk_revolve
+    # pass scalars, hrevolve passes per-level vectors); every clause of COST plus "never raises for the
+    # operation types the builders emit" is an obligation in each view
+    FLAT = ("dict", {"uf": "real", "ub": "real", "rd": "real", "wd": "real"})
+    LEVELS = ("dict", {"uf": "real", "ub": "real", "rd": ("list", ["real"]), "wd": ("list", ["real"])})
+    KNOWN = ("self.type == 'Forward' or self.type == 'Backward' or self.type == 'Checkpoint' or "
+             "self.type == 'Read_memory' or self.type == 'Write_memory' or self.type == 'Write_Forward_memory' or "
+             "self.type == 'Discard_memory' or self.type == 'Discard_disk' or self.type == 'Discard_Forward_disk' or "
+             "self.type == 'Discard_Forward_memory' or self.type == 'Discard' or self.type == 'Discard_Forward'")
+    for tag, pty, extra, keep in (
+            ("flat", FLAT, " or self.type == 'Read_disk' or self.type == 'Write_disk'",
+             ("forward", "backward", "read_disk", "write_disk", "free")),
+            ("levels", LEVELS, " or self.type == 'Read' or self.type == 'Write' or self.type == 'Write_Forward'",
+             ("forward", "backward", "read_level", "write_level", "free"))):
+        cls = "Operation_" + tag
+        reg.add_class(ClassSpec(cls, "seq.basic_functions",
+                                fields=[("type", "str"), ("index", "opindex"), ("params", pty)]))
+        reg.add(Contract(
+            "seq.basic_functions.Operation.cost#" + tag, self_class=cls, params=[("self", "obj")],
+            pure=True, returns="real",
+            requires=[("emitted_type", KNOWN + extra),
+                      ("index_shape", "implies(self.type == 'Forward' or self.type == 'Read' or self.type == 'Write' "
+                                      "or self.type == 'Write_Forward', is_pair(self.index))")] +
+                     ([("level_in_range", "implies(self.type == 'Read' or self.type == 'Write' or "
+                                          "self.type == 'Write_Forward', 0 <= self.index[0] and "
+                                          "self.index[0] < len(self.params['rd']) and "
+                                          "self.index[0] < len(self.params['wd']))")] if tag == "levels" else []),
+            ensures=[(l, e) for l, e in COST if l in keep], frame=[], props=("C07",),
+            exc_props={"*": ("C07", "C17")}))
     # F34: Sequence - makespan only
     # `items` is ghost: the number of operations / sub-sequences inserted (only its positivity is used,
     # for the one place where a builder looks at sequence[-1])
